@@ -79,8 +79,9 @@ def liouville_representation(U: ndarray, basis: _b.Basis) -> ndarray:
     U = np.asanyarray(U)
     conjugated_basis = np.einsum('...ba,ibc,...cd->...iad', U.conj(), basis, U,
                                  optimize=['einsum_path', (1, 2), (0, 1)])
-    if basis.btype == 'GGM' and basis.d > 12:
-        # Can do closed form expansion and overhead compensated
+    if basis.btype == 'GGM' and basis.d > 12 and basis == _b.Basis.ggm(basis.d):
+        # Can do closed form expansion and overhead compensated (only for the
+        # GGM basis itself; arrays derived from it inherit the label)
         return _b.ggm_expand(conjugated_basis, hermitian=basis.isherm)
     else:
         return _b.expand(conjugated_basis, basis, hermitian=basis.isherm)
